@@ -112,4 +112,20 @@ def equivSpec (eqGroups : List (List Int)) (input out : List FHit) : EquivVerdic
 
 def EquivVerdict.ok (v : EquivVerdict) : Bool := v.sublist && v.separated && v.bestKept && v.untouched
 
+/-! ### `find_hmmer_hits`, one gene: the order of the two filters is part of the meaning -/
+
+/-- what must come back for a gene: of the raw hits strictly above their signature's cut-off, first
+    the competition between equivalent profiles (every overlapping group keeps its preferred hit),
+    *then* per profile the earliest best of what survived, in start order.  Picking the best of a
+    profile first would lose a profile whose best copy loses the competition while another copy
+    of it is uncontested -/
+def specFindHmmerHits (cut : Int → Int) (eqGroups : List (List Int)) (raw : List FHit) : List FHit :=
+  ASV.Refine.sortBy (fun (a b : FHit) => decide (a.hs ≤ b.hs))
+    (specMultiple (specFilterB eqGroups (raw.filter fun h => decide (cut h.prof < h.sc))))
+
+/-- the per-profile promise on its own: every hit that survives the competition and scores above −1
+    has its profile represented in `out` by a hit scoring at least as high -/
+def profilesRepresented (survivors out : List FHit) : Bool :=
+  survivors.all fun h => !decide (-10 < h.sc) || out.any fun x => x.prof == h.prof && decide (h.sc ≤ x.sc)
+
 end ASV.HitFilter
